@@ -159,7 +159,10 @@ fn case_c01(ctx: &mut Ctx, r: &mut Rng) {
 /// `one`: a single entry point per case (small cases for the coverage-guided runs).
 fn case_c01_n(ctx: &mut Ctx, r: &mut Rng, one: bool) {
     let allow_dirty = r.chance(1, 3);
-    let (cfg, pclass) = gen_client_cfg(r, allow_dirty, false);
+    // (a quarter of the clients carry default tags / a default container id - also delimiter-laden ones, which the C04
+    // check, judged on delimiter-free strings, never uses)
+    let with_defaults = r.chance(1, 4);
+    let (cfg, pclass) = gen_client_cfg(r, allow_dirty, with_defaults);
     let sink = RecSink::new();
     let hlog = HandlerLog::default();
     let client = build_client(&cfg, sink.clone(), Some(hlog.clone()));
@@ -249,8 +252,8 @@ fn check_c01_call(ctx: &mut Ctx, client: &StatsdClient, cfg: &ClientCfg, sink: &
                         ctx.violation("C01", "as_metric_str", "returned-metric-differs", format!("returned metric {:?} differs from the emitted text", clip(s, 200)), trace(Json::Null));
                     }
                 }
-                // (iv) standalone constructors
-                if sp.decos.is_empty() {
+                // (iv) standalone constructors (they know nothing of a client's defaults)
+                if sp.decos.is_empty() && cfg.default_tags.is_empty() && cfg.default_container.is_none() {
                     if let Some(st) = panics::guard(|| standalone(sp.kind, &norm_prefix(&cfg.prefix_raw), &sp.key, &sp.val)).ok().flatten() {
                         ctx.rep.obs("standalone_compared", 1);
                         if &st != text {
@@ -511,10 +514,36 @@ const IO_KINDS: &[io::ErrorKind] = &[
     io::ErrorKind::Other,
 ];
 
+/// The call is made by the destructor of a guard while its (scoped) thread unwinds from a panic.
+fn call_while_unwinding(client: &StatsdClient, sp: &CallSpec) -> Result<Ret, String> {
+    let out: std::sync::Mutex<Option<Result<Ret, String>>> = std::sync::Mutex::new(None);
+    struct Guard<'a>(&'a StatsdClient, &'a CallSpec, &'a std::sync::Mutex<Option<Result<Ret, String>>>);
+    impl Drop for Guard<'_> {
+        fn drop(&mut self) {
+            let r = panics::guard(|| call(self.0, self.1));
+            *self.2.lock().unwrap() = Some(r);
+        }
+    }
+    std::thread::scope(|s| {
+        let _ = s
+            .spawn(|| {
+                let _g = Guard(client, sp, &out);
+                panic!("scripted-panic: unwinding with a metric-emitting guard on the stack");
+            })
+            .join();
+    });
+    let r = out.lock().unwrap().take();
+    r.unwrap_or_else(|| Err("the guard's destructor did not run".into()))
+}
+
 /// One client, a sequence of calls, a scripted outcome per *emit*. Checks every call.
 fn c03_sequence(ctx: &mut Ctx, r: &mut Rng, outcomes: &[bool], ep_fixed: Option<(Kind, &'static str)>, with_handler: bool) {
     let with_defaults = r.chance(1, 3);
-    let (cfg, _) = gen_client_cfg(r, false, with_defaults);
+    // a third of the sequences use delimiter-laden prefixes, keys and tags (':', '|', '#', newlines ...): what a string
+    // contains never decides whether the call emits
+    let allow_dirty = r.chance(1, 3);
+    let (cfg, _) = gen_client_cfg(r, allow_dirty, with_defaults);
+    let (seq_key, _) = if allow_dirty { gen_key(r, true) } else { ("k".to_string(), "fixed") };
     let sink = RecSink::new();
     let hlog = HandlerLog::default();
     let client = build_client(&cfg, sink.clone(), if with_handler { Some(hlog.clone()) } else { None });
@@ -537,8 +566,8 @@ fn c03_sequence(ctx: &mut Ctx, r: &mut Rng, outcomes: &[bool], ep_fixed: Option<
         };
         let form = *r.pick(&[Form::Plain, Form::Tagged, Form::Quiet]);
         let mask = r.below(16) as u8;
-        let decos = gen_decos(r, mask, false, true);
-        let sp = spec(kind, val, "k", form, decos);
+        let decos = gen_decos(r, mask, allow_dirty, true);
+        let sp = spec(kind, val, &seq_key, form, decos);
         let exp = expectation(&cfg, &sp);
         let valid = exp.is_ok();
         let injected = if valid {
@@ -557,7 +586,15 @@ fn c03_sequence(ctx: &mut Ctx, r: &mut Rng, outcomes: &[bool], ep_fixed: Option<
         ctx.rep.eval();
         let before = sink.emit_count();
         let hbefore = hlog.len();
-        let ret = panics::guard(|| call(&client, &sp));
+        // one quiet send in eight is made from a destructor that runs while its thread unwinds from another panic (a
+        // scope guard that records a metric in Drop): the handler rule has no exception for that
+        let in_unwind = form == Form::Quiet && r.chance(1, 8);
+        let ret = if in_unwind {
+            ctx.rep.obs("quiet_sends_from_a_destructor_during_unwinding", 1);
+            call_while_unwinding(&client, &sp)
+        } else {
+            panics::guard(|| call(&client, &sp))
+        };
         let emitted = sink.emits_from(before);
         let handled = hlog.from(hbefore);
         sig.push(match (valid, injected.is_some(), form) {
